@@ -28,6 +28,7 @@ import GeoProofs.Lemmas.C07Bbox
 import GeoProofs.Lemmas.C07PBase
 import GeoProofs.Lemmas.C07PParts
 import GeoProofs.Lemmas.C07PRings
+import GeoProofs.Lemmas.TRANDist
 
 namespace Geo.Proofs.C07
 open Geo Geo.Proofs.Kernel
@@ -684,5 +685,24 @@ theorem empty_member_zero_witness :
 /-- K14b: `nearest_neighbour_distance` panics on an empty line string against a non-empty one -/
 theorem empty_linestring_panic_witness : lsLs2 [] [⟨0, 0⟩, ⟨1, 0⟩] = .panic := by
   decide +kernel
+
+/-! ### TRAN: the point–segment kernel is the term read off geo-types/src/private_utils.rs (sqrt-free form) -/
+
+/-- [T] (translator tie) `line_segment_distance` (with `line_euclidean_length`, `Line::{delta, dx, dy}`) regenerated from
+the Rust bodies on this run, `f64::hypot` being a parameter `hyp`: whenever the square of `hyp` is `x² + y²` at the three
+argument pairs the code can evaluate (point→start, point→end, start→end: `HypOk`), the square of the regenerated result
+is the model's `psd2` — the degenerate-segment test, the projection parameter `r`, the `r ≤ 0` / `r ≥ 1` clamps and the
+perpendicular term `|s| · hypot(dx, dy)` are those of the source. Full statement (`hyp = √(x² + y²)` for all arguments) has
+no model over the rationals; the hypotheses are instantiated below. -/
+theorem lineSegmentDistance_sq_eq_source_partial (hyp : Rat → Rat → Rat) (p a b : Pt)
+    (H : Geo.Proofs.TRANDist.HypOk hyp p a b) :
+    Gen.lineSegmentDistance hyp p a b * Gen.lineSegmentDistance hyp p a b = psd2 p a b ∧
+    Gen.pointLineEuclideanDistance hyp p (a, b) * Gen.pointLineEuclideanDistance hyp p (a, b) = psd2 p a b :=
+  ⟨Geo.Proofs.TRANDist.lineSegmentDistance_sq hyp p a b H, Geo.Proofs.TRANDist.pointLineEuclideanDistance_sq hyp p a b H⟩
+
+example : Gen.lineSegmentDistance (fun x y => if y = 0 then rabs x else 5) ⟨3, 4⟩ ⟨0, 0⟩ ⟨6, 0⟩ *
+    Gen.lineSegmentDistance (fun x y => if y = 0 then rabs x else 5) ⟨3, 4⟩ ⟨0, 0⟩ ⟨6, 0⟩ = psd2 ⟨3, 4⟩ ⟨0, 0⟩ ⟨6, 0⟩ :=
+  (lineSegmentDistance_sq_eq_source_partial _ _ _ _
+    ⟨by decide +kernel, by decide +kernel, by decide +kernel⟩).1
 
 end Geo.Proofs.C07
